@@ -40,7 +40,7 @@ def variants(sp):
     """(space, periodic flag) variants realised by the code for one table row"""
     if sp.kind == "cu":
         out = [(sp, False)]
-        if sp.ncells >= 4:
+        if sp.ncells >= 3:          # make_knots admits periodic spaces with ncells >= degree
             s2 = copy.copy(sp)
             s2.cu_periodic = True
             out.append((s2, True))
